@@ -5,7 +5,7 @@ each thread has a sys.settrace hook that counts 'line' events in the library's p
 schedule is a list of preemption points (thread, k-th traced line event) at which control passes to the next thread.
 Workloads (each on a FRESH declaration exec-ed in a new module, registry caches emptied): W1 first calls on data
 classes whose references are still unresolved (with Field constraints on the referenced type, nested generics);
-W2 first calls on a decorated function with forward-referenced parameters, *args and **kwargs; W3 concurrent
+W6 two threads decorate one module-level function at the same time; W2 first calls on a decorated function with forward-referenced parameters, *args and **kwargs; W3 concurrent
 conversions to types absent from the registry cache (fresh Enum / data class / Rule); W4 first use of a subclass
 while the base class is first used.
 Oracle: every call returns what the same call returns when all calls run one after the other on a fresh
@@ -153,7 +153,28 @@ CALLS = [     # two threads make the first calls on the SAME subclass, whose inh
     lambda: Base.__from__({"id": 7, "nxt": {"w": 8}}),
 ]
 '''
-WORKLOADS = {"W1": W1, "W2": W2, "W3": W3, "W4": W4, "W5": W5}
+W6 = '''
+import utype
+from typing import *
+from utype import Schema, Rule
+
+def h(a: 'T', n: 'Q' = 1) -> 'T':
+    a.q = a.q + n
+    return a
+
+class T(Schema):
+    x: int
+    q: 'Q' = 2
+
+class Q(int, Rule):
+    ge = 0
+CALLS = [     # two threads DECLARE (decorate) the same module-level function at the same time, each calls its own wrapper
+    lambda: utype.parse(h)({"x": "1"}, "3"),
+    lambda: utype.parse(h)({"x": "8", "q": 4}),
+    lambda: utype.parse(h)({"x": 5}, -1),
+]
+'''
+WORKLOADS = {"W1": W1, "W2": W2, "W3": W3, "W4": W4, "W5": W5, "W6": W6}
 _n = [0]
 
 
@@ -407,7 +428,7 @@ def campaign(ctx):
             ctx.sample(case["workload"], case)
         ctx.fail_all(r["fails"], case)
 
-    wl = ["W1", "W2", "W5"] if not ctx.thorough else ["W1", "W2", "W3", "W4", "W5"]
+    wl = ["W1", "W2", "W5", "W6"] if not ctx.thorough else ["W1", "W2", "W3", "W4", "W5", "W6"]
     # 1. exhaustive one-preemption sweep (split over the shards)
     n = 0
     idx = 0
@@ -445,7 +466,7 @@ def campaign(ctx):
     ctx.extra["gate_pair_schedules"] = n2
     # 2. sampled multi-preemption schedules over all workloads
     sched = st.fixed_dictionaries({
-        "workload": st.sampled_from(["W1", "W2", "W3", "W4", "W5"]), "threads": st.sampled_from([2, 2, 3]),
+        "workload": st.sampled_from(["W1", "W2", "W3", "W4", "W5", "W6"]), "threads": st.sampled_from([2, 2, 3]),
     }).flatmap(lambda c: st.fixed_dictionaries({
         "workload": st.just(c["workload"]), "threads": st.just(c["threads"]), "start": st.integers(0, c["threads"] - 1),
         "schedule": st.lists(st.tuples(st.integers(0, c["threads"] - 1), st.integers(1, 3000)).map(list), min_size=1, max_size=3)}))
